@@ -5,12 +5,32 @@ UNITS = {
   'fr': dict(FG, wrapper='w_fnode.cpp', cxxflags=['-DPOL=1']),
   'fql': dict(FG, wrapper='w_fnode.cpp', cxxflags=['-DPOL=2']),
   'frl': dict(FG, wrapper='w_fnode.cpp', cxxflags=['-DPOL=3']),
+  'fql_t': dict(FG, wrapper='w_fnode.cpp', cxxflags=['-DPOL=2', '-DNOTHROW=0']),
 }
 FS = ['--max-field-sensitivity-array-size', '600', '--object-bits', '12', '--no-sat-preprocessor']
+def S(conc, ops, **kw):
+    d = {'CONC': conc, 'OPS': ops, 'ACCS': 0, 'SYMACC': 1}
+    d.update(kw); return d
+FQ_QUICK = [
+  S(1, '1,1,8,1,8', FIFO=1), S(1, '1,1,1,8,8', FIFO=1, NESTB=1), S(2, '1,1,1,8,8,1'), S(0, '1,1,1,8,8,1'),
+  S(1, '1,1,1,2,5,8', FIFO=1), S(2, '6,1,1,8,7,1'), S(1, '1,1,8,9,1', NSUCC=2, FLIPS='1,2,3', FIFO=1), S(1, '1,1,8,1,8', EXTIN=1, FIFO=1),
+]
+FR_QUICK = [
+  S(1, '1,1,8,1,1,8'), S(2, '1,1,1,8,1,8'), S(1, '4,8,8,8', AVAIL=2), S(1, '1,4,1,8,8,8', AVAIL=2), S(2, '4,8,8,8,8', AVAIL=3), S(1, '1,4,5,8,8', AVAIL=2),
+  S(1, '1,1,8', NESTB=1, NESTS=1),
+]
+FL_QUICK = [
+  S(1, '1,1,8,1', NESTB=1, NESTS=1), S(2, '1,1,8,1', NESTB=3), S(0, '1,1', NESTB=1, NESTS=2),
+]
+def FN(name, unit, rej, lw, scs, desc):
+    return dict(name=name, unit=unit, harness='h_fnode.c', cbmc=['--unwind', '40'] + FS, defines={'memset': 'vp_memset', 'REJ': rej, 'LW': lw},
+                native_cflags=['-fno-sanitize=null'], scenarios_quick=scs, scenarios_thorough=scs, desc=desc, bounds={}, timeout=900)
 HARNESSES = [
-  dict(name='fnode_queueing', unit='fq', harness='h_fnode.c', cbmc=['--unwind', '16'] + FS, defines={'memset': 'vp_memset', 'REJ': 0},
-       scenarios=[{'CONC': 1, 'OPS': '1,1,2,1,2', 'ACCS': '5', 'FIFO': 1}],
-       desc='function_node queueing', bounds={}, timeout=600),
+  FN('fnode_queueing', 'fq', 0, 0, FQ_QUICK, 'function_node queueing'),
+  FN('fnode_rejecting', 'fr', 1, 0, FR_QUICK, 'function_node rejecting'),
+  FN('fnode_queueing_lw', 'fql', 0, 1, FL_QUICK + [S(1, '1,1,1,8,8', FIFO=1)], 'function_node queueing_lightweight'),
+  FN('fnode_rejecting_lw', 'frl', 1, 1, FL_QUICK + [S(1, '4,8,8,8', AVAIL=2)], 'function_node rejecting_lightweight'),
+  FN('fnode_lw_throwing_body', 'fql_t', 0, 0, [S(1, '1,1,8,1,8', FIFO=1)], 'lightweight policy, body not noexcept'),
 ]
 OUTSIDE = []
 STUBS = []
